@@ -142,8 +142,47 @@ fn build_confusable(name: &'static str) -> Input {
     Input { name, dump: Arc::new(d.finish().unwrap()), syms: Arc::new(syms) }
 }
 
+/// Two builds of one file loaded at once (same name, same debug file, different debug id — a DLL replaced on
+/// disk while the process runs), each reached by a different thread only after a first lookup completed.
+fn build_two_builds(name: &'static str) -> Input {
+    let e = Endian::Little;
+    let mut d = synth::SynthMinidump::with_endian(e);
+    d = d.add_system_info(synth::SystemInfo::new(e).set_processor_architecture(md::ProcessorArchitecture::PROCESSOR_ARCHITECTURE_ARM64 as u16).set_platform_id(md::PlatformId::Linux as u32));
+    let names = ["/lib/first", "/lib/second", "/opt/host.so", "/opt/host.so"];
+    let chains: [[usize; 2]; 2] = [[0, 2], [1, 3]];
+    let mut syms = HashMap::new();
+    for (t, chain) in chains.iter().enumerate() {
+        let t = t as u64;
+        let mut st = Section::with_endian(e);
+        for k in 0..16u64 {
+            st = st.D64(if k == 3 { 0x4000_2020 + 0x10_0000 * chain[1] as u64 } else { 0 });
+        }
+        let stack = synth::Memory::with_section(st, 0x7000_0000 + 0x1000 * t);
+        let ctx = synth::arm64_context(e, 0x4000_1010 + 0x10_0000 * chain[0] as u64, 0x7000_0000 + 0x1000 * t);
+        d = d.add_thread(synth::Thread::new(e, 40 + t as u32, &stack, &ctx)).add(stack).add(ctx);
+    }
+    for (i, n) in names.iter().enumerate() {
+        let mname = synth::DumpString::new(n, e);
+        let mut module = synth::Module::new(e, 0x4000_0000 + 0x10_0000 * i as u64, 0x10000, &mname, 1, 0, None);
+        let text = |who: &str| format!("MODULE Linux arm64 000000000000000000000000000000000 x\nFUNC 1000 100 0 {who}_f\nFUNC 2000 100 0 {who}_g\nSTACK CFI INIT 1000 1100 .cfa: sp 32 + .ra: .cfa -8 + ^\n");
+        if i >= 2 {
+            let guid_first = if i == 2 { 0x1111_1111u32 } else { 0x2222_2222 };
+            let cv = Section::with_endian(e).D32(0x5344_5352).D32(guid_first).D16(0xf00d).D16(0xbeef).append_bytes(b"\x01\x02\x03\x04\x05\x06\x07\x08").D32(1).append_bytes(b"host.pdb\0");
+            module = module.cv_record(&cv);
+            d = d.add(cv);
+            let id = format!("{guid_first:08X}F00DBEEF01020304050607081");
+            syms.insert(format!("{n}|{id}"), Some(text(if i == 2 { "old_build" } else { "new_build" })));
+        } else {
+            syms.insert(n.to_string(), Some(text(if i == 0 { "first" } else { "second" })));
+        }
+        d = d.add_module(module).add(mname);
+    }
+    Input { name, dump: Arc::new(d.finish().unwrap()), syms: Arc::new(syms) }
+}
+
 fn inputs() -> Vec<Input> {
     vec![
+        build_two_builds("arm64-two-builds-of-one-file"),
         build_confusable("arm64-confusable-module-names"),
         build_arm64("arm64-plain", false, false, false),
         build_arm64("arm64-proc-limits-16-rows", true, false, false),
@@ -164,7 +203,9 @@ struct SchedSup {
     calls: Arc<Mutex<Vec<String>>>,
 }
 fn answer(syms: &HashMap<String, Option<String>>, m: &(dyn Module + Sync)) -> Result<LocateSymbolsResult, SymbolError> {
-    match syms.get(&*m.code_file()) {
+    // a "name|debug id" entry (two builds of one file) takes precedence over the plain name
+    let by_id = format!("{}|{}", m.code_file(), m.debug_identifier().map(|d| d.breakpad().to_string()).unwrap_or_default());
+    match syms.get(&by_id).or_else(|| syms.get(&*m.code_file())) {
         Some(Some(s)) => Ok(LocateSymbolsResult { symbols: SymbolFile::from_bytes(s.as_bytes())?, extra_debug_info: None }),
         _ => Err(SymbolError::NotFound),
     }
